@@ -216,6 +216,11 @@ class Runner:
             if op[1] == "set":
                 f.comments["Note%d" % (self.counter % 3)] = "v%d" % self.counter
                 self.m.comments["Note%d" % (self.counter % 3)] = "v%d" % self.counter
+            elif op[1] == "setb":
+                # unrelated comments whose KEY has a blank at an edge: other keys than the derived ones, they stay what they are
+                k = (" Note1", "Configuration ", "Build Info ", " DeviceSettings", "RequiresBusAddress ")[self.counter % 5]
+                f.comments[k] = self.m.comments[k] = "b%d" % self.counter
+                self.ctx.bin("foreign_comment_key_with_blank_at_an_edge")
             else:
                 f.comments.pop("FirmwareId", None)
                 self.m.comments.pop("FirmwareId", None)
@@ -334,7 +339,7 @@ class Runner:
 ALPHA_SMALL = [("set", 0), ("set", 1), ("comments", 0), ("comments", 3), ("auth", 0, False), ("auth", 3, True), ("append", 3), ("insert0", 0), ("writeread",), ("writecheck",)]
 ALPHA_FULL = (
     [("set", i) for i in range(NCFG)] + [("setx", i) for i in (0, 1, 3, 0, 1)] + [("comments", i) for i in range(NCFG)] + [("auth", i, c) for i in range(NCFG) for c in (False, True)]
-    + [("append", t) for t in (0, 1, 2, 3, 4, 5)] + [("insert0", t) for t in (0, 1, 3, 4)] + [("insertmid", t) for t in (0, 2, 4)] + [("writeread",), ("writecheck",), ("writecheck",), ("comment", "set"), ("comment", "del")]
+    + [("append", t) for t in (0, 1, 2, 3, 4, 5)] + [("insert0", t) for t in (0, 1, 3, 4)] + [("insertmid", t) for t in (0, 2, 4)] + [("writeread",), ("writecheck",), ("writecheck",), ("comment", "set"), ("comment", "setb"), ("comment", "del")]
 )
 
 
@@ -394,7 +399,7 @@ def plan(tier, seed):
 
 def mandatory_bins(tier):
     return ["op_set", "op_setx", "component_with_two_byte_type_tag", "empty_configuration", "op_comments", "op_auth", "op_append", "op_insert0", "op_insertmid", "op_writeread", "op_writecheck", "op_comment", "op_writeread_bec2", "op_writeread_bf3",
-            "typeless_component_before_configuration", "typeless_component_after_configuration", "two_different_configurations_in_a_row", "derive_after_derive_other_mode", "all_sequences_up_to_bound", "every_ordered_pair_of_configurations", "bus_address_value_zero_or_empty_judged_against_fresh_object"]
+            "typeless_component_before_configuration", "typeless_component_after_configuration", "two_different_configurations_in_a_row", "derive_after_derive_other_mode", "all_sequences_up_to_bound", "every_ordered_pair_of_configurations", "bus_address_value_zero_or_empty_judged_against_fresh_object", "foreign_comment_key_with_blank_at_an_edge"]
 
 
 def finish(agg, tier):
